@@ -119,6 +119,56 @@ def scenario(ctx, rng, point):
         ctx.traces += 1
 
 
+def flock_fault_scenario(ctx, rng, errno_name):
+    """the first run is held in a before hook (it holds the lock); the second run's flock() itself fails with an errno other than EAGAIN
+    (no lock records, not supported): whatever the reason, a run that has no lock must not touch the storage"""
+    with slevel.Sandbox("c16f") as sb:
+        H = runs.History(ctx, sb, rng, "C16", 3, 3)
+        H.w.populate(nfiles=4)
+        H.run(nedits=1)
+        H.now += 5
+        H.advance()
+        marker = sb.path("hook-started")
+        cfg = open(sb.cfg).read().replace("        - path: %s" % os.path.join(H.w.src, "item0"),
+                                          "        - path: %s\n          before: 'touch %s; sleep 4'" % (os.path.join(H.w.src, "item0"), marker))
+        open(sb.cfg, "w").write(cfg)
+        tf = sb.path("t1.txt")
+        p1 = start_first(sb, H, None, tf)
+        ok = wait_for(lambda: os.path.exists(marker))
+        time.sleep(0.2)
+        mid = storage_listing(H.w.st)
+        tf2 = sb.path("t2.txt")
+        rc2, out2 = sb.vsb(["backup", "w"], now=H.now + 1, prefix=trace.strace_cmd(tf2, trace.STORAGE_CALLS, inject=["flock:error=%s:when=1" % errno_name]))
+        after_second = storage_listing(H.w.st)
+        first_running = p1.poll() is None
+        out1 = p1.communicate(timeout=60)[0].decode("utf-8", "replace")
+        ev2 = trace.parse(tf2)
+        main2 = ev2[0]["pid"] if ev2 else None
+        ops2 = trace.project([e for e in ev2 if e["pid"] == main2], H.w.st)
+        mutating2 = [o for o in ops2 if o["op"] in ("mkdir", "create", "write", "rename", "remove", "open-write") and o.get("rel") is not None and o.get("ok", True)]
+        ctx.evaluations += 1
+        ctx.count("flock-fault." + errno_name)
+        ctx.nontrivial.add(("flock-fault", errno_name, rc2))
+        desc = {"second_run_flock_fails_with": errno_name, "second_exit": rc2, "second_errors": slevel.errors_of(out2)[:2], "first_exit": p1.returncode}
+        ctx.sample(desc)
+        problem = None
+        if not ok:
+            ctx.violation("schedule", "correspondence lock-schedule no longer checks: the first run could not be held in its hook", {"case": desc}, failing_input=False)
+            return
+        if rc2 == 0:
+            problem = "a second `vsb backup` whose flock() failed with %s went on and exits 0 although the first run had taken the lock" % errno_name
+        elif mutating2:
+            problem = "a second run without a lock (flock: %s) issued mutating storage calls: %s" % (errno_name, [(o["op"], o["rel"]) for o in mutating2[:3]])
+        elif mid != after_second:
+            problem = "the storage listing changed while only the lock-less second run was active"
+        if problem:
+            ctx.violation("exclusion", problem, {"case": desc, "second_output": out2[-600:]})
+            return
+        if not first_running or p1.returncode != 0:
+            ctx.violation("schedule", "correspondence lock-schedule no longer checks: the held first run ended early or exits %d" % p1.returncode,
+                          {"case": desc, "first_output": out1[-600:]}, failing_input=False)
+
+
 def upload_scenario(ctx, rng, point):
     """two `vsb upload` runs with the same configuration file: the second is started while the first waits for a delayed reply of the
     emulator (during listing / during transfer)"""
@@ -245,6 +295,10 @@ def run(ctx):
         bracket(ctx, rng)
         for point in ("after-lock", "reading", "publication", "removal"):
             scenario(ctx, rng, point)
+            if ctx.violations:
+                return
+        for errno_name in (("ENOLCK", "ENOSYS", "EOPNOTSUPP", "EINTR") if thorough else ("ENOLCK",)):
+            flock_fault_scenario(ctx, rng, errno_name)
             if ctx.violations:
                 return
         for point in ("upload-listing", "upload-transfer"):
